@@ -1,5 +1,5 @@
 """Property registry: Coq target, K function, evidence text."""
-from . import props_ledger as PL, props_ledger2 as PL2, props_dsl as PD
+from . import props_ledger as PL, props_ledger2 as PL2, props_dsl as PD, props_fmt as PF
 
 def spec(pid, k, rule, need_cli=False, not_proved="", trusted_extra=None, assumptions=None):
     return {"pid": pid, "target": "Props/P_%s.vo" % pid, "vfile": "Props/P_%s.v" % pid, "module": "Props.P_%s" % pid,
@@ -26,5 +26,6 @@ PROPS = {
     "C11": spec("C11", PL2.k_c11, LEDGER_RULE + VAR_RULE),
     "C12": spec("C12", PL2.k_c12, LEDGER_RULE + VAR_RULE),
     "C13": spec("C13", PD.k_c13, "DSL texts: 40 hand-written PEG corner cases; then for each random transaction list (1-6 lines, all seven kinds, ISO currencies, keyword-like tickers) its plain rendering, a rendering with random layout (blank/comment lines, spaces/tabs, keyword/ticker/currency case, explicit GBP / zero clause, trailing comments, LF/CRLF/CR, missing final newline) and a single-token corruption; distinct non-trivial = distinct decorated or corrupted texts"),
+    "C17": dict(spec("C17", PF.k_c17, "ledgers built for display edge cases (sale prices x.xx5 giving exact half-pence results, fees 0.005/0.015, amounts of a million and more, losses, zero results, quantities with 6+ decimals, foreign-currency echoes) plus scenario ledgers and the repository fixtures; every shown figure of the plain text, the JSON and (for a subset) the PDF text runs is compared with the full-precision value; distinct non-trivial = distinct ledgers with at least one disposal"), need_pdf=True),
     "C14": spec("C14", PD.k_c14, "API-level transaction lists of all seven kinds: decimals of scale 0..28 up to 2^96-1, every ISO-4217 code, zero and non-zero optional clauses; every tenth case also compares the reports of the original, its DSL and its JSON rendering; distinct non-trivial = distinct lists"),
 }
